@@ -4,7 +4,9 @@ model to the code."""
 NSHARD_THOROUGH = 14
 
 
-def world_jobs(profiles, tier, seed, quick_count, thorough_count, length=60, also_release=False):
+def world_jobs(profiles, tier, seed, quick_count, thorough_count, length=60, also_release=True):
+    # (every world job also runs against a release build of hecs and the harness: code whose effect hides
+    # inside `debug_assert!` behaves differently there)
     jobs = []
     for p in profiles:
         if tier == "quick":
